@@ -30,10 +30,14 @@ theorem C09_unknown (w : World) (sid : Nat) (s : Socket) (t : Bytes) (m : Msg)
     · left; simp [h1, h2, hs, hp]
 
 /-- Known target: the message, minus its first frame, goes to exactly the peer whose identity
-equals that frame — no other pipe of the world is touched. -/
+equals that frame — no pipe of the world other than that peer's connection (its write half
+`wr.pipe`; and, when the write fails and the peer is forgotten, the read half the socket holds
+for the same identity) is touched. -/
 theorem C09_route_only (w : World) (sid : Nat) (s : Socket) (t : Bytes) (m : Msg) (wr : Wr)
     (hs : getSock w sid = some s) (hm : m ≠ []) (ht : t ≠ []) (hlen : t.length ≤ 255)
-    (hp : ilookup s.peers t = some wr) (j : Nat) (hj : j ≠ wr.pipe) :
+    (hp : ilookup s.peers t = some wr) (j : Nat) (hj : j ≠ wr.pipe)
+    (hjr : ∀ rd, ilookup s.fqStreams t = some rd → j ≠ rd.pipe)
+    (hjq : ∀ rd, ilookup s.reqRd t = some rd → j ≠ rd.pipe) :
     getPipe (routerSendStart w sid (t :: m)).1.pipes j = getPipe w.pipes j := by
   unfold routerSendStart
   have hl : ¬ (t :: m).length ≤ 1 := by
@@ -46,10 +50,21 @@ theorem C09_route_only (w : World) (sid : Nat) (s : Socket) (t : Bytes) (m : Msg
   unfold sendToPoll
   simp only [hs, hp]
   have hframe := wrSendPoll_frame w.pipes wr (.feeding (encodeMsg m)) j hj
-  generalize wrSendPoll w.pipes wr (.feeding (encodeMsg m)) = q at hframe
+  have hpipe := wrSendPoll_pipe w.pipes wr (.feeding (encodeMsg m))
+  generalize wrSendPoll w.pipes wr (.feeding (encodeMsg m)) = q at hframe hpipe
   obtain ⟨ps, wr', st', r⟩ := q
-  simp only at hframe ⊢
-  cases r <;> simp [setSock, hframe]
+  simp only at hframe hpipe ⊢
+  cases r with
+  | pending => simp [setSock, hframe]
+  | done => simp [setSock, hframe]
+  | error =>
+    simp only [setSock]
+    refine Eq.trans (peerDisconnected_frame _ _ _ _ ?_ ?_ ?_) hframe
+    · intro wr2 h2
+      simp only [ilookup_iinsert_same] at h2
+      injection h2 with h2; subst h2; rw [hpipe]; exact hj
+    · exact hjr
+    · exact hjq
 
 /-- … and what is written there is exactly the encoding of the remaining frames (here: on a
 connection that accepts every write and has nothing buffered — the general case is C10/C12's
